@@ -77,7 +77,8 @@ theorem editorInsertTwoColumnsOpts_regenerated (h : Gen.Code.editorInsertTwoColu
          all_goals first
            | omega
            | (exfalso; simp_all; done)
-           | (rw [f64MulTrunc_nonneg _ _ (by omega) (by simp_all)])
+           | (rw [f64MulTrunc_nonneg _ _ (by omega) (by cases hneg : pct.neg <;> simp_all)]
+              try ((cases hneg : pct.neg <;> simp_all [mulRoundTrunc_zero]); done))
        subst hXY
        clear hX hY
        -- integer arithmetic, the two wraps, the maximum loop, the combination
